@@ -351,6 +351,13 @@ func checkExact(t *rapid.T) {
 	dup := false
 	flatten(ast, "", want, &dup)
 	in1, _ := renderWith(t, ast, "a")
+	if rapid.IntRange(0, 2).Draw(t, "afterMalformed") == 0 {
+		// an earlier, rejected input must leave nothing behind: first a malformed expression whose
+		// defect sits inside a nested block (so that the walk is abandoned there)
+		bad := rapid.SampledFrom([]string{"A{a=B{b}}", "A{a=B{b ,}}", "A{a=B{c=C{d}}}", "A{x=1,a=B{b[=1}}", "A{a=B{b=}}", "A{a.b=B{c}}", "A{a=B{b=1,c}}"}).Draw(t, "malformed")
+		_, _ = expr.Parse(bad)
+		vk.Class("exact:after-malformed-input")
+	}
 	got, err := expr.Parse(in1)
 	vk.Eval()
 	vk.Class(fmt.Sprintf("exact:depth=%d", stat.depth))
@@ -384,6 +391,46 @@ func checkExact(t *rapid.T) {
 			t.Fatalf("VERIF-VIOLATION C17 exact: re-rendering changes the result\nfirst: %q\nsecond: %q\nerr=%s\n%s", in1, in, firstLine(err2), diffMaps(got2, want))
 		}
 	}
+	// white space is insignificant between tokens, not inside a string literal: the same expression
+	// with one space more in a literal is another expression
+	if v := spaceVariant(ast); v != nil {
+		wantV := map[string]string{}
+		d := false
+		flatten(v, "", wantV, &d)
+		inV := renderCompact(v)
+		gotV, errV := expr.Parse(inV)
+		vk.Class("exact:literal-spacing-variant")
+		if errV != nil || !reflect.DeepEqual(gotV, wantV) {
+			t.Fatalf("VERIF-VIOLATION C17 exact: after parsing %q, the expression %q (one more space inside a string literal) gives err=%s\n%s", renderCompact(ast), inV, firstLine(errV), diffMaps(gotV, wantV))
+		}
+	}
+}
+
+// spaceVariant returns a copy of the tree in which the first string literal containing a raw space
+// has that space doubled (nil if there is none).
+func spaceVariant(n *node) *node {
+	done := false
+	var cp func(n *node) *node
+	cp = func(n *node) *node {
+		c := &node{Type: n.Type}
+		for _, it := range n.Items {
+			ni := it
+			if it.Val.Sub != nil {
+				ni.Val.Sub = cp(it.Val.Sub)
+			} else if !done && it.Val.Kind == "string" && strings.Contains(it.Val.Text, " ") && strings.Contains(it.Val.Decoded, " ") {
+				ni.Val.Text = strings.Replace(it.Val.Text, " ", "  ", 1)
+				ni.Val.Decoded = strings.Replace(it.Val.Decoded, " ", "  ", 1)
+				done = true
+			}
+			c.Items = append(c.Items, ni)
+		}
+		return c
+	}
+	v := cp(n)
+	if !done {
+		return nil
+	}
+	return v
 }
 
 func TestC17_Exact(t *testing.T) {
